@@ -1051,7 +1051,8 @@ static int write_text(void *context, UChar *text, int32_t length, int fold, int 
             return CIF_ERROR;
         }
     } else {
-        int target_length = LINE_LENGTH(context) - 8;
+        /* leave room for the fold-point window, a prefix and the fold-marking backslash */
+        int target_length = LINE_LENGTH(context) - (FOLDING_WINDOW + PREFIX_LENGTH + 1);
         char prefix_text[] = PREFIX;
         int prefix_chars;
         UChar *tok;
